@@ -105,6 +105,19 @@ func registerStrings(e *Engine) {
 		}
 		return Slice{a: []Value{&StrVal{e: s[:i]}, &StrVal{e: s[i+1:]}}}
 	})
+	// strings.Cut(s, sep) == SplitN(s, sep, 2) with a found flag
+	reg("strings.Cut", func(th *Thread, fn *ssa.Function, a []Value) Value {
+		s := a[0].(*StrVal).e
+		sep := strArg(th, a[1])
+		if len(sep) != 1 {
+			th.st.abort("strings.Cut only modelled for a one-byte separator")
+		}
+		i := th.elemIndexByte(s, mkBV(8, uint64(sep[0])))
+		if i < 0 {
+			return Tuple{&StrVal{e: s}, &StrVal{}, tFalse}
+		}
+		return Tuple{&StrVal{e: s[:i]}, &StrVal{e: s[i+1:]}, tTrue}
+	})
 	reg("strings.HasPrefix", func(th *Thread, fn *ssa.Function, a []Value) Value {
 		s, p := a[0].(*StrVal).e, a[1].(*StrVal).e
 		if hasWide(p) {
